@@ -676,11 +676,13 @@ def refine_cause(col, got, meta, D):
     if top == "value-changed":
         pairs = changed_scalars(col, got)
         if pairs and all(isinstance(o, (int,)) and not isinstance(o, bool) and isinstance(g, float) and float(o) == g for o, g in pairs):
-            return "promotion/int-stored-as-float64-loses-precision"
+            return "promotion/int-stored-as-float64"
         if pairs and all(isinstance(o, str) and isinstance(g, str) and o.rstrip("\x00") == g for o, g in pairs):
             return "str/trailing-nul-stripped"
         if hasnone and meta["family"] in ("mixed", "scalar") and cast_to_first(col, got):
             return "first-non-none-entry-fixes-type/value-changed"
+    if top == "kind-changed" and all(d[0] == "kind-changed" and ": i " in d[1] and " came back as f " in d[1] for d in D):
+        return "promotion/int-stored-as-float64"  # homogeneous integer column (e.g. python ints on both sides of 2**63) stored as float64
     if top == "value-became-none/at-sentinel":
         return "%s/value-equals-none-sentinel" % family_key(col, meta)
     return None
